@@ -395,6 +395,8 @@ impl WorldB {
                 if self.sv_ms / 1000 < self.tokens[t].expire_ts {
                     let now = self.sv_ms;
                     self.tokens[t].presented.push((src, now));
+                    let inc = self.incarnation;
+                    self.tokens[t].inc_presented.push((src, inc));
                 }
             }
         }
@@ -478,6 +480,34 @@ impl WorldB {
                 );
                 if refreshed {
                     obs.violate("C18", "unauthentic-datagram-postpones-timeout", &format!("{}/{}", why, tname(ptype)), format!("datagram {} from {}", ix, src));
+                }
+            }
+        }
+
+        // ---- C07: genuine traffic is still accepted after unauthentic datagrams. A request with a valid token that this server
+        // incarnation has only ever seen from this address, for an identity and an address without session, is answered (with a
+        // challenge, or with a refusal when the server is full) unless an unauthentic copy damaged something on the way ----
+        if valid_request_model && sess_id.is_none() && !self.flooded {
+            if let Some(t) = rec_tid {
+                let inc = self.incarnation;
+                let only_here = self.tokens[t].inc_presented.iter().filter(|(_, i)| *i == inc).all(|(a, _)| *a == src)
+                    && self.tokens[t].first_addr.map(|a| a == src).unwrap_or(true);
+                let id_free = !self.sessions.contains_key(&self.tokens[t].id);
+                if only_here && id_free {
+                    obs.count("oracle.C07.genuine_request_answered");
+                    if !matches!(res, Res::Send { .. }) {
+                        let squatted = self.ledger.iter().any(|r| r.certainly_bogus && r.arrivals > 0 && r.tid == Some(t) && r.ptype == T_REQUEST);
+                        if squatted {
+                            obs.violate(
+                                "C07",
+                                "unauthentic-datagram-had-effect",
+                                "bogus/genuine-request-ignored-afterwards/server",
+                                format!("request {} with token {} from {} got no reply; a damaged copy of that token's request had been handed to the server before", ix, t, src),
+                            );
+                        } else {
+                            obs.count("probe.valid_request_not_answered");
+                        }
+                    }
                 }
             }
         }
